@@ -9,13 +9,13 @@ def defaults : List (String × String) :=
 /-- properties of the settings class that have a setter -/
 def setters : List String := ["_read_user", "sim_backend", "max_qubits", "max_registers", "conn_retry_time", "recv_timeout", "recv_retry_time", "log_level", "network_config_file", "noisy_qubits", "t1"]
 
-/-- arguments of the `self._config.update(..)` calls of `update_settings`, in source order -/
-def layers : List String := ["_default_config", "internal_config", "user_config"]
+/-- what the `self._config.update(..)` calls of `update_settings` lay over the memory, in source order -/
+def layers : List String := ["_default_config", "_internal_settings_file", "_user_settings_file"]
 
 /-- does the method call `self._write()` -/
 def writers : List (String × Bool) := [("_set_setting", true), ("default_settings", true)]
 
 /-- constructs the translator did not understand (must be empty) -/
-def opaque : List String := []
+def untranslated : List String := []
 
 end SqVerif.Gen.Defaults
